@@ -11,15 +11,19 @@ this module).  On every run the harness (section `[pickle model]` of `harness/pr
 REAL bytes of every `out.save` to `run`, walks the in-memory system and the system reloaded in a fresh process by `id()`
 exactly as the pickler sees them, canonises all three with the Lean `canon`, and compares `dump` of the walked heap with
 the real opcode list.
-  PROVED there: equal canonical forms ⇒ isomorphic reachable graphs incl. sharing and cycles (`canon_iso`); the frame /
-  identity / freshness lemmas of the unpickler; the round trip `canon (run (dump h r)) = canon h r` for atoms and strings in
-  any heap, and — `roundtrip_of_check` — the full isomorphism conclusion for every heap on which the evaluated check says
-  `true` (evaluated by the driver on every in-memory heap of every run, and by the kernel on a two-cycle of instances).
-  NOT PROVED: the round trip for ALL heaps (`RoundtripStatement`: containers, sharing, cycles — the simulation invariant
-  between pickler memo and partially built cells); the converse of `canon_iso`.
+  PROVED there: equal canonical forms ⇔ isomorphic reachable graphs incl. sharing and cycles (`canon_iso`, `iso_canon`);
+  the frame / identity / freshness lemmas of the unpickler; the round trip `canon (run (dump h r)) = canon h r` for EVERY heap
+  made of atoms, strings, bytes, tuples and lists (≤ 1000 elements) with arbitrary sharing and cycles
+  (`roundtrip_lists_tuples_partial`, by a simulation invariant between pickler memo and partially built unpickler cells);
+  and — `roundtrip_of_check` — the full isomorphism conclusion for every heap on which the evaluated check says `true`
+  (evaluated by the driver on every in-memory heap of every run, and by the kernel on a two-cycle of instances).
+  NOT PROVED: the round trip for ALL heaps (`RoundtripStatement`): the dict, set, class and INSTANCE cases of the simulation
+  (real `.save` heaps are mostly instances — they are covered by the per-run evaluation only).
   NOT MODELLED (validated by the three-way comparison, or trusted): the C implementation `_pickle` versus the model (tied
   only by the per-run comparison of opcodes and graphs); `find_class` in the fresh process (classes found by module path);
-  what `cls.__new__` / a reduce callable really returns; `sys.intern` of attribute names; `__setstate__` (none of the
+  what `cls.__new__` / a reduce callable really returns; `sys.intern` of attribute names; the interpreter's singleton
+  strings (`""` and 1-character strings: the real unpickler always returns the singleton, a live graph may hold another object
+  with the same text, e.g. from `"".join` in `fix_seq` — the harness compares graphs modulo the identity of such strings); `__setstate__` (none of the
   pickled classes has one — reported if that changes); the 8 bytes of `BINFLOAT` are opaque; the link between a decoded heap
   and the `Comp.St` / `Inst` tree of this file (`snapshot`) is still made by the harness (`harness/snapshot.py`), not in Lean.
 What IS proved in THIS file, over the model of the saved state (`Comp.St` tables, the `Inst`/`SysSt` tree of
